@@ -83,6 +83,7 @@ IdVector(r) ==
   LET x == IdResult(r.tr, r.inbox, r.dl, "mine")
       ks == { k \in Kinds : r.tr \in KindRules[k] /\ (Cardinality(KindRules[k]) = 1 \/ r.tr = "dgram") } IN
   [kind |-> "id", transport |-> r.tr, inbox |-> r.inbox, dl |-> r.dl, res |-> x.res, idx |-> x.idx,
+   extend |-> MaxDeadlineExtensions,       \* how often the read deadline may be moved later once the request is written
    kinds |-> SetToSeq({ [k |-> k, admitted |-> SetToSeq({ IdResult(t, r.inbox, r.dl, "mine") : t \in KindRules[k] })] : k \in ks })]
 
 Out == IF Mode = "id" THEN Emit(IdVector(v)) ELSE Emit(StreamVector(v))
